@@ -224,12 +224,27 @@ struct raw_reader
     }
 
     // Digest of every row of every table (and sqlite_sequence) of every attached database.
-    std::string digest() const
+    std::string digest() const { return digest_of(""); }
+    // names of the attached databases that are backed by a file
+    std::vector<std::string> file_schemas() const
+    {
+        std::vector<std::string> out;
+        query("PRAGMA database_list", [&](sqlite3_stmt* st) {
+            const unsigned char* f = sqlite3_column_text(st, 2);
+            if (f && *f)
+                out.push_back((const char*)sqlite3_column_text(st, 1));
+        });
+        return out;
+    }
+    // digest of one attached database ("" = all of them)
+    std::string digest_of(const std::string& only) const
     {
         uint64_t h = 1469598103934665603ULL;
         std::vector<std::string> schemas;
         query("PRAGMA database_list", [&](sqlite3_stmt* st) {
-            schemas.push_back((const char*)sqlite3_column_text(st, 1));
+            std::string n = (const char*)sqlite3_column_text(st, 1);
+            if (only.empty() || n == only)
+                schemas.push_back(n);
         });
         for (auto& sc : schemas)
         {
